@@ -235,6 +235,18 @@ ClrMiniF == [ Base EXCEPT !.sel = <<"m","f">>, !.pos = <<"p">>, !.npd = 1, !.dfl
 ClrMiniG == [ Base EXCEPT !.sel = <<"m","g">>, !.api = "external" ]
 ClrMiniConfs == {ClrMiniF, ClrMiniG, GinSingleton}
 ClrMiniRegs == {ClrMiniConfs}
+\* nested singletons: the constructor of one singleton is configured with a reference to another singleton
+ClrMiniGx == [ Base EXCEPT !.sel = <<"m","g">>, !.pos = <<"x">>, !.npd = 1, !.dflt = {<<"x", D("x")>>}, !.api = "external" ]
+ClrMiniH == [ Base EXCEPT !.sel = <<"m","h">>, !.api = "register" ]
+D1Call == R(<<"gin","singleton">>, <<"d1">>, "call")
+NestConfs == {ClrMiniF, ClrMiniGx, ClrMiniH, GinSingleton}
+NestRegs == {NestConfs}
+NestVals == { L1, S1Call, D1Call, R(<<"m","g">>, <<>>, "bare"), R(<<"m","h">>, <<>>, "bare") }
+NestFilter(sc, c, v) ==
+  \/ c.sel = <<"m","f">> /\ v = S1Call /\ sc = <<>> 
+  \/ c.sel = <<"gin","singleton">> /\ v = R(<<"m","g">>, <<>>, "bare") /\ sc = <<"s1">>
+  \/ c.sel = <<"m","g">> /\ v = D1Call /\ sc = <<>>
+  \/ c.sel = <<"gin","singleton">> /\ v = R(<<"m","h">>, <<>>, "bare") /\ sc = <<"d1">>
 ClrMiniVals == { L1, S1Call, R(<<"m","g">>, <<>>, "bare") }
 ClrMiniConstNames == { <<"X">>, <<"m","X">> }      \* one shadows the other: definable together only in interactive mode
 ClrHooks == {
